@@ -178,14 +178,14 @@ def c08() -> List[V]:
 
 def c09() -> List[V]:
     return [
-        V("an-evaluates-in-ambient-mode", S, "An.evaluate", "                with symbolic_mode(mode=None):\n                    try:",
+        V("an-evaluates-in-ambient-mode", S, "An.evaluate", "                with symbolic_mode(mode=None, _evaluation_stack=blocks_opened_by_user_code):\n                    try:",
           "                if True:\n                    try:", rule="MODE-OFF-DOM"),
         V("the-evaluates-in-ambient-mode", S, "The.evaluate", "            with symbolic_mode(mode=None):\n                result = self._evaluate_()",
           "            if True:\n                result = self._evaluate_()", rule="MODE-OFF-DOM"),
         V("the-forces-query-mode", S, "The.evaluate", "            with symbolic_mode(mode=None):\n                result = self._evaluate_()",
           "            with symbolic_mode():\n                result = self._evaluate_()", rule="MODE-OFF-DOM"),
-        V("first-result-pulled-outside", S, "An.evaluate", "        results = self._evaluate__()\n        try:",
-          "        results = self._evaluate__()\n        first = next(results, None)\n        try:", rule="MODE-OFF-DOM"),
+        V("first-result-pulled-outside", S, "An.evaluate", "        results = self._evaluate__()\n",
+          "        results = self._evaluate__()\n        first = next(results, None)\n", rule="MODE-OFF-DOM"),
         V("twin-mode-positional", S, "The.evaluate", "with symbolic_mode(mode=None):", "with symbolic_mode(None, None):", kind="twin"),
     ]
 
@@ -305,8 +305,8 @@ def c05() -> List[V]:
           "if self._caching_enabled_() or self.right_cache.check(left_value):", rule="CACHE-SWITCH"),
         V("twin-switch-noop-both-sides", S, "BinaryOperator.update_cache", "        if not self._caching_enabled_():\n            return\n", "",
           kind="twin", note="writes unguarded too: the switch becomes a no-op and the property holds trivially; reads stay guarded"),
-        V("twin-nested-if", S, "AND._evaluate__", "                if self._caching_enabled_() and self.right_cache.check(left_value):\n                    yield from self.yield_final_output_from_cache(left_value, self.right_cache)\n                    continue",
-          "                if self._caching_enabled_():\n                    if self.right_cache.check(left_value):\n                        yield from self.yield_final_output_from_cache(left_value, self.right_cache)\n                        continue",
+        V("twin-nested-if", S, "AND._evaluate__", "                if self._caching_enabled_() and self.right_cache.check(left_value):\n                    yield from self.yield_final_output_from_cache(left_value, self.right_cache,\n                                                                  yield_when_false=yield_when_false)\n                    continue",
+          "                if self._caching_enabled_():\n                    if self.right_cache.check(left_value):\n                        yield from self.yield_final_output_from_cache(left_value, self.right_cache, yield_when_false=yield_when_false)\n                        continue",
           kind="twin"),
     ]
 
@@ -391,7 +391,7 @@ def c07() -> List[V]:
     return [
         V("product-drains", "utils", "generate_combinations", "    for combination in combine(0):", "    for combination in itertools.product(*iterators):",
           rule="LAZY-TAINT"),
-        V("entry-materialises", S, "An.evaluate", "        results = self._evaluate__()\n        try:", "        results = iter(list(self._evaluate__()))\n        try:",
+        V("entry-materialises", S, "An.evaluate", "        results = self._evaluate__()\n", "        results = iter(list(self._evaluate__()))\n",
           rule="LAZY-TAINT"),
         V("type-filter-materialises", "predicate", "extract_selected_variable_and_expression",
           "domain = From(filter(lambda v: isinstance(v, symbolic_cls), domain.domain))",
@@ -422,17 +422,17 @@ def c11() -> List[V]:
         V("args-ignore-binding", S, "Variable._bind_child_vars_", "var._evaluate_as_value_(copy(binding))", "var._evaluate_as_value_()",
           rule="INFER-THREAD"),
         V("construct-once-outside-loop", S, "Variable._bind_unbound_kwargs_and_yield_results_",
-          "            instance = self._type_(**{k: hv.value for k, hv in bound_kwargs.items()})\n            yield from",
-          "            if not merged_kwargs:\n                continue\n            instance = self._type_(**{k: hv.value for k, hv in bound_kwargs.items()})\n            yield from",
+          "            instance = self._call_user_code_(self._type_, **{k: hv.value for k, hv in bound_kwargs.items()})\n            yield from",
+          "            if not merged_kwargs:\n                continue\n            instance = self._call_user_code_(self._type_, **{k: hv.value for k, hv in bound_kwargs.items()})\n            yield from",
           rule="INFER-ONE-PER-BINDING"),
         V("inferred-served-from-registry", S, "Variable._yield_from_cache_or_instantiate_new_values_", "        if not self._is_inferred_ and self._is_indexed_:",
           "        if self._is_indexed_:", rule="INFER-ONE-PER-BINDING"),
-        V("fields-copied", S, "Variable._instantiate_new_values_and_yield_results_", "instance = self._type_(**{k: hv.value for k, hv in bound_kwargs.items()})",
-          "instance = self._type_(**{k: copy(hv.value) for k, hv in bound_kwargs.items()})", rule="ID-KEEP"),
-        V("fields-get-wrappers", S, "Variable._instantiate_new_values_and_yield_results_", "instance = self._type_(**{k: hv.value for k, hv in bound_kwargs.items()})",
-          "instance = self._type_(**{k: hv for k, hv in bound_kwargs.items()})", rule="ID-KEEP"),
-        V("constructed-twice", S, "Variable._instantiate_new_values_and_yield_results_", "            instance = self._type_(**{k: hv.value for k, hv in bound_kwargs.items()})\n",
-          "            instance = self._type_(**{k: hv.value for k, hv in bound_kwargs.items()})\n            instance = self._type_(**{k: hv.value for k, hv in bound_kwargs.items()})\n",
+        V("fields-copied", S, "Variable._instantiate_new_values_and_yield_results_", "instance = self._call_user_code_(self._type_, **{k: hv.value for k, hv in bound_kwargs.items()})",
+          "instance = self._call_user_code_(self._type_, **{k: copy(hv.value) for k, hv in bound_kwargs.items()})", rule="ID-KEEP"),
+        V("fields-get-wrappers", S, "Variable._instantiate_new_values_and_yield_results_", "instance = self._call_user_code_(self._type_, **{k: hv.value for k, hv in bound_kwargs.items()})",
+          "instance = self._call_user_code_(self._type_, **{k: hv for k, hv in bound_kwargs.items()})", rule="ID-KEEP"),
+        V("constructed-twice", S, "Variable._instantiate_new_values_and_yield_results_", "            instance = self._call_user_code_(self._type_, **{k: hv.value for k, hv in bound_kwargs.items()})\n",
+          "            instance = self._call_user_code_(self._type_, **{k: hv.value for k, hv in bound_kwargs.items()})\n            instance = self._call_user_code_(self._type_, **{k: hv.value for k, hv in bound_kwargs.items()})\n",
           rule="INFER-ONE-PER-BINDING"),
     ]
 
@@ -705,7 +705,7 @@ def more_c14():
           "_predicate_type_=predicate_type)", rule="REG-READ-MODE"),
         V("store-replayed-live", "hashed_data", "HashedIterable.__iter__", "        yield from list(self.values.values())", "        yield from self.values.values()", rule="ITER-SNAPSHOT"),
         V("inference-allocates-without-registering", S, "Variable._instantiate_new_values_and_yield_results_",
-          "            instance = self._type_(**{k: hv.value for k, hv in bound_kwargs.items()})",
+          "            instance = self._call_user_code_(self._type_, **{k: hv.value for k, hv in bound_kwargs.items()})",
           "            instance = object.__new__(self._type_)\n            instance.__init__(**{k: hv.value for k, hv in bound_kwargs.items()})", rule="REG-INFER"),
         V("twin-subclass-keys-as-loop", CD, "get_cache_keys_for_class_", "        cache_keys = [t for t in cache.keys() if isinstance(t, type) and issubclass(t, clazz)]",
           "        for t in cache.keys():\n            if isinstance(t, type) and issubclass(t, clazz):\n                cache_keys.append(t)", kind="twin"),
@@ -767,12 +767,13 @@ for _pid, _more in _MORE.items():
 # ---------------------------------------------------------------------------------------------------------------------
 # third batch: the rules added after the second round of seeded changes
 _REPLAY_OLD = ("                        yield from self.yield_final_output_from_cache(left_value, self.right_cache,\n"
-               "                                                                      suppress_true_duplicates=True)")
+               "                                                                      suppress_true_duplicates=True,\n"
+               "                                                                      yield_when_false=yield_when_false)")
 _ELSEIF_READ_OLD = ("                if self.left._is_false_:\n"
                     "                    if self._caching_enabled_() and self.right_cache.check(left_value):\n" + _REPLAY_OLD + "\n"
                     "                        continue\n")
 _ELSEIF_READ_HOISTED = ("                if self._caching_enabled_() and self.right_cache.check(left_value):\n"
-                        "                    yield from self.yield_final_output_from_cache(left_value, self.right_cache, suppress_true_duplicates=True)\n"
+                        "                    yield from self.yield_final_output_from_cache(left_value, self.right_cache, suppress_true_duplicates=True, yield_when_false=yield_when_false)\n"
                         "                    continue\n"
                         "                if self.left._is_false_:\n")
 
@@ -780,12 +781,12 @@ _ELSEIF_READ_HOISTED = ("                if self._caching_enabled_() and self.ri
 def _replay():
     return [
         V("replay-does-not-suppress-true-duplicates", S, "ElseIf._evaluate__", _REPLAY_OLD,
-          "                        yield from self.yield_final_output_from_cache(left_value, self.right_cache)", rule="REPLAY-DEDUP"),
+          "                        yield from self.yield_final_output_from_cache(left_value, self.right_cache, yield_when_false=yield_when_false)", rule="REPLAY-DEDUP"),
         V("replay-helper-ignores-request", S, "BinaryOperator.yield_final_output_from_cache",
           "if (is_false or suppress_true_duplicates) and self._is_duplicate_output_(output):", "if is_false and self._is_duplicate_output_(output):",
           rule="REPLAY-DEDUP"),
         V("twin-replay-request-positional", S, "ElseIf._evaluate__", _REPLAY_OLD,
-          "                        yield from self.yield_final_output_from_cache(left_value, self.right_cache, True)", kind="twin"),
+          "                        yield from self.yield_final_output_from_cache(left_value, self.right_cache, True, yield_when_false)", kind="twin"),
         V("right-cache-consulted-before-left-truth", S, "ElseIf._evaluate__", _ELSEIF_READ_OLD, _ELSEIF_READ_HOISTED, rule="REPLAY-CONTEXT"),
     ]
 
@@ -1266,10 +1267,10 @@ def _batch7() -> Dict[str, List[V]]:
     ]
     replay_agree = [
         V("alternative-replays-its-own-cache", S, "ElseIf._evaluate__",
-          "yield from self.yield_final_output_from_cache(left_value, self.right_cache,\n                                                                      suppress_true_duplicates=True)",
-          "yield from self.yield_final_output_from_cache(left_value, suppress_true_duplicates=True)", rule="CACHE-OPERAND-AGREEMENT"),
-        V("conjunction-replays-for-the-incoming-binding", S, "AND._evaluate__", "yield from self.yield_final_output_from_cache(left_value, self.right_cache)",
-          "yield from self.yield_final_output_from_cache(sources, self.right_cache)", rule="CACHE-OPERAND-AGREEMENT"),
+          "yield from self.yield_final_output_from_cache(left_value, self.right_cache,\n                                                                      suppress_true_duplicates=True,",
+          "yield from self.yield_final_output_from_cache(left_value, suppress_true_duplicates=True,", rule="CACHE-OPERAND-AGREEMENT"),
+        V("conjunction-replays-for-the-incoming-binding", S, "AND._evaluate__", "yield from self.yield_final_output_from_cache(left_value, self.right_cache,",
+          "yield from self.yield_final_output_from_cache(sources, self.right_cache,", rule="CACHE-OPERAND-AGREEMENT"),
     ]
     key_filter = [
         V("operator-cache-keys-variables-only", S, "BinaryOperator.__post_init__", "combined_vars.filter(lambda v: not isinstance(v.value, Literal))",
@@ -1381,7 +1382,7 @@ def _batch8() -> Dict[str, List[V]]:
           "                for conc in self.right._conclusion_:\n                    required_vars.update(conc._unique_variables_)\n                when_iam = None", rule="DEDUP-CONCLUSIONS"),
     ]
     neg = [
-        V("any-operand-accepted-by-not", S, "Not", "    elif not hasattr(operand, '_invert_'):\n", "    elif False:\n", rule="NEG-HONOURED",
+        V("any-operand-accepted-by-not", S, "Not", "    elif not hasattr(type(operand), '_invert_'):\n", "    elif False:\n", rule="NEG-HONOURED",
           also=[("operand._invert_ = not operand._invert_", "operand._invert_ = not getattr(operand, '_invert_', False)")]),
         V("concatenation-declares-an-unused-flag", S, "Concatenate", "    _child_: CanBehaveLikeAVariable[T]\n\n    def __post_init__(self):\n        super().__post_init__()\n        self._var_ = self",
           "    _child_: CanBehaveLikeAVariable[T]\n    _invert_: bool = field(init=False, default=False)\n\n    def __post_init__(self):\n        super().__post_init__()\n        self._var_ = self", rule="NEG-HONOURED"),
@@ -1425,4 +1426,117 @@ def _batch8() -> Dict[str, List[V]]:
 
 
 for _pid, _vs in _batch8().items():
+    REGISTRY[_pid] = _merged(REGISTRY[_pid], (lambda vs: (lambda: vs))(_vs))
+
+
+# ---------------------------------------------------------------------------------------------------------------------
+# ninth batch: the rules added after the fifth round of seeded changes and the repairs it led to
+CS = "conclusion_selector"
+
+
+def _batch9() -> Dict[str, List[V]]:
+    relink = [
+        V("refinement-relinks-the-right-slot-unless-parent-is-a-refinement", "rule", "refinement",
+          "    if isinstance(prev_parent, BinaryOperator):\n        # evaluation follows the operands of the parent operator, so the operand that was the refined node has to\n        # become the new ExceptIf node.\n        if prev_parent.left is current_node:\n            prev_parent.left = new_conditions_root\n        else:\n            prev_parent.right = new_conditions_root",
+          "    if isinstance(prev_parent, ExceptIf) and prev_parent.left is current_node:\n        prev_parent.left = new_conditions_root\n    elif isinstance(prev_parent, BinaryOperator):\n        prev_parent.right = new_conditions_root",
+          rule="TREE-SURGERY"),
+        V("twin-refinement-relink-tests-the-right-slot", "rule", "refinement",
+          "        if prev_parent.left is current_node:\n            prev_parent.left = new_conditions_root\n        else:\n            prev_parent.right = new_conditions_root",
+          "        if prev_parent.right is current_node:\n            prev_parent.right = new_conditions_root\n        else:\n            prev_parent.left = new_conditions_root", kind="twin"),
+    ]
+    bound = [
+        V("bound-again-mapping-ignores-the-inversion", S, "DomainMapping._evaluate__", "            self._is_false_ = bool(value) if self._invert_ else not value\n", "            self._is_false_ = not value\n", rule="NEG-TRUTH"),
+        V("bound-again-mapping-drops-requested-false-rows", S, "DomainMapping._evaluate__", "            if yield_when_false or not self._is_false_:\n                yield sources\n            return\n        child_val",
+          "            if not self._is_false_:\n                yield sources\n            return\n        child_val", rule="NEG-TRUTH"),
+        V("bound-again-comparison-tests-the-wrapper", S, "Comparator._evaluate__", "self._is_false_ = not sources[self._id_].value", "self._is_false_ = not sources[self._id_]", rule="BOUND-AGAIN-TRUTH"),
+    ]
+    index = [
+        V("miss-does-not-fall-back-to-the-wildcard", CD, "IndexedCache.retrieve",
+          "                if All in cache:\n                    yield from self._yield_result(assignment, cache[All], key_idx, result)\n                else:\n                    self.search_count += 1\n                return",
+          "                self.search_count += 1\n                return", rule="RETRIEVE-MISS-WILDCARD"),
+        V("coverage-record-is-the-callers-dict", CD, "IndexedCache.insert", "        seen_assignment = dict(assignment)\n        self.seen_set.add(seen_assignment)", "        self.seen_set.add(assignment)", rule="STORE-NO-ALIAS"),
+        V("twin-coverage-record-copied-inline", CD, "IndexedCache.insert", "        seen_assignment = dict(assignment)\n        self.seen_set.add(seen_assignment)", "        self.seen_set.add(dict(assignment))", kind="twin"),
+        V("falsy-key-value-filed-under-the-wildcard", CD, "IndexedCache.insert", "v = assignment.get(k, All)", "v = assignment.get(k) or All", rule="INSERT-RETRIEVABLE"),
+        V("twin-wildcard-by-membership", CD, "IndexedCache.insert", "v = assignment.get(k, All)", "v = assignment[k] if k in assignment else All", kind="twin"),
+    ]
+    the = [
+        V("nested-the-keeps-no-solution", S, "The._evaluate_", "        self._is_false_ = result is None\n        if self._is_false_:", "        if result is None:\n            self._is_false_ = True", rule="THE-OUTCOME"),
+    ]
+    tail = [
+        V("position-taken-after-the-snapshot", HD, "HashedIterable.__iter__", "        position = len(self.pulled)\n        yield from list(self.values.values())\n", "        yield from list(self.values.values())\n        position = len(self.pulled)\n", rule="SHARED-TAIL"),
+        V("record-not-re-read-after-a-yield", HD, "HashedIterable.__iter__", "                yield v\n                if position < len(self.pulled):\n                    break\n", "                yield v\n", rule="SHARED-TAIL"),
+        V("iteration-ends-without-re-reading-the-record", HD, "HashedIterable.__iter__", "            else:\n                if position >= len(self.pulled):\n                    return", "            else:\n                return", rule="SHARED-TAIL"),
+    ]
+    live = [
+        V("selected-expression-reset-through-its-var-only", S, "QueryObjectDescriptor._reset_only_my_cache_",
+          "            for variable in selected_variable._all_variable_instances_:\n                variable._reset_only_my_cache_()\n", "            selected_variable._var_._reset_only_my_cache_()\n", rule="REG-LIVE"),
+        V("registry-stores-memoised", S, "Variable._cache_keys_", "    @property\n    def _cache_keys_(self)", "    @property\n    @lru_cache(maxsize=None)\n    def _cache_keys_(self)", rule="REG-LIVE"),
+        V("conclusion-reset-does-nothing", "conclusion", "Conclusion._reset_cache_", "        for variable in self.value._all_variable_instances_:\n            variable._reset_only_my_cache_()\n", "        ...\n", rule="REG-LIVE"),
+    ]
+    ident = [
+        V("identifier-of-primitives-from-their-hash", HD, "HashedValue.__post_init__", "            else:\n                self.id_ = id(self.value)",
+          "            elif isinstance(self.value, (int, float, str, bytes)):\n                self.id_ = hash(self.value)\n            else:\n                self.id_ = id(self.value)", rule="VALUE-IDENTITY"),
+    ]
+    replay = [
+        V("replayed-false-rows-all-dropped", S, "BinaryOperator.yield_final_output_from_cache", "if (is_false or suppress_true_duplicates) and self._is_duplicate_output_(output):",
+          "if is_false or suppress_true_duplicates and self._is_duplicate_output_(output):", rule="REPLAY-DEDUP"),
+        V("replay-hands-on-unasked-false-rows", S, "BinaryOperator.yield_final_output_from_cache", "            if is_false and not yield_when_false:\n                continue\n", "", rule="REPLAY-FALSE-ASKED"),
+        V("comparison-replay-not-told-the-request", S, "Comparator._evaluate__", "yield from self.yield_final_output_from_cache(sources, yield_when_false=yield_when_false)", "yield from self.yield_final_output_from_cache(sources)", rule="REPLAY-FALSE-ASKED"),
+        V("twin-replay-skip-phrased-otherwise", S, "BinaryOperator.yield_final_output_from_cache", "            if is_false and not yield_when_false:\n                continue\n", "            if not yield_when_false and is_false:\n                continue\n", kind="twin"),
+    ]
+    parent = [
+        V("descriptor-does-not-tell-its-condition-who-evaluates-it", S, "QueryObjectDescriptor._evaluate_", "            self._child_._eval_parent_ = self\n", "", rule="EVAL-PARENT-SET"),
+        V("duplicate-store-selected-by-the-node-itself", S, "SymbolicExpression._is_duplicate_output_", "parent_id = self._parent_._id_", "parent_id = self._id_", rule="DEDUP-PER-PARENT"),
+    ]
+    concrete = [
+        V("predicate-arguments-renamed-before-the-ordinary-call", PR, "predicate.wrapper", "        if in_symbolic_mode():\n", "        kwargs.update(dict(zip([p for p in inspect.signature(function).parameters], args)))\n        args = ()\n        if in_symbolic_mode():\n", rule="MODE-BRANCH"),
+        V("allocator-only-when-the-class-defines-it", PR, "symbol", "    original_new = find_original_new(cls)\n", "    original_new = cls.__new__ if '__new__' in cls.__dict__ else object.__new__\n", rule="ALLOC-AS-UNDECORATED"),
+        V("allocator-called-without-the-arguments", PR, "instantiate_class_and_update_cache", "        instance = original_new(symbolic_cls, *args, **kwargs)", "        instance = original_new(symbolic_cls)", rule="ALLOC-AS-UNDECORATED"),
+        V("own-parameter-in-the-users-namespace", PR, "update_domain_and_kwargs_from_args", "(symbolic_cls: Type, /, *args, **kwargs)", "(symbolic_cls: Type, *args, **kwargs)", rule="KWARGS-NAMESPACE"),
+    ]
+    values = [
+        V("for-all-skips-falsy-universal-values", S, "ForAll._evaluate__", "            ctx = {**sources, **var_val}\n", "            if self.variable._is_false_:\n                continue\n            ctx = {**sources, **var_val}\n", rule="VALUE-FLAG-NOT-READ"),
+    ]
+    neg = [
+        V("not-asks-the-expression-for-the-flag", S, "Not", "    elif not hasattr(type(operand), '_invert_'):", "    elif not hasattr(operand, '_invert_'):", rule="NEG-HONOURED"),
+    ]
+    ctx = [
+        V("fresh-context-stack-per-step", S, "An.evaluate", "with symbolic_mode(mode=None, _evaluation_stack=blocks_opened_by_user_code):", "with symbolic_mode(mode=None):", rule="EVAL-NO-CONTEXT"),
+        V("user-class-called-under-the-current-mode", S, "Variable._call_user_code_", "        with symbolic_mode(mode=None):\n            return function(**kwargs)", "        return function(**kwargs)", rule="EVAL-NO-CONTEXT"),
+    ]
+    concl = [
+        V("completion-only-over-variables-with-a-domain", S, "QueryObjectDescriptor._unbound_conclusion_variables_", "                            and (var._domain_ or not var._predicate_type_):", "                            and var._domain_:", rule="CONCLUSION-VARS-BOUND"),
+        V("completion-ignores-flattened-expressions", S, "QueryObjectDescriptor._unbound_conclusion_variables_", "                    elif isinstance(var, Flatten):\n                        # one row per element\n                        unbound.append(var)\n", "", rule="CONCLUSION-VARS-BOUND"),
+        V("every-selected-variable-marked-inferred", S, "QueryObjectDescriptor._inform_selected_variables_that_they_should_be_inferred_",
+          "                if supplied_domain and not any(selected_variable is var for var in concluded_on):\n                    # selected next to the inferred variable, it keeps ranging over its domain\n                    continue\n", "", rule="INFER-MARK"),
+        V("infer-marks-at-construction", S, "Infer.__post_init__", "        self._node_.wrap_subtree = False\n", "        for v in self._child_.selected_variables:\n            v._is_inferred_ = True\n        self._node_.wrap_subtree = False\n", rule="INFER-MARK"),
+        V("infer-mark-not-taken-back", S, "Infer._evaluate__", "        finally:\n            for v in marked:\n                v._is_inferred_ = False\n", "        finally:\n            pass\n", rule="EVAL-STATE-RESET"),
+    ]
+    delegate = [
+        V("set-of-drops-the-request-for-false-rows", S, "SetOf._evaluate__", "sol_gen = self._evaluate_(self.selected_variables, sources, yield_when_false=yield_when_false)", "sol_gen = self._evaluate_(self.selected_variables, sources)", rule="REQUEST-DELEGATED"),
+    ]
+    return {
+        "C01": bound + index[:1] + tail[:1] + replay + parent,
+        "C02": replay[:1] + parent + delegate,
+        "C03": bound[:2] + neg,
+        "C04": tail + live + replay[1:3] + concl[3:],
+        "C05": index + replay,
+        "C06": the,
+        "C07": tail,
+        "C08": concrete + ctx[:1],
+        "C09": ctx,
+        "C10": values + replay[1:2],
+        "C11": bound[1:2] + parent,
+        "C12": relink + concl,
+        "C13": tail[1:] + concrete[3:],
+        "C14": live + concl[3:] + concrete[1:3],
+        "C15": parent[:1] + delegate,
+        "C16": ident + concl[:3],
+        "C18": delegate,
+        "C19": values + bound[1:2],
+        "C20": index[1:],
+    }
+
+
+for _pid, _vs in _batch9().items():
     REGISTRY[_pid] = _merged(REGISTRY[_pid], (lambda vs: (lambda: vs))(_vs))
